@@ -224,6 +224,24 @@ __CPROVER_ensures(__CPROVER_old(g_sr_n) != 0 ==> (g_sr_v0 == __CPROVER_old(g_sr_
 #endif
 
 #ifndef VERIF_NATIVE
+#ifdef LOG_SCALAR_MUL
+/* VALUE-based view of the scalar_mul call log (audit rule: wiring is stated over values, not slots or operand order).
+ * mul_log_get(i, ..) = operands and result of logged call i as integers (0 if there is no such call);
+ * mul_logged(x, y, res) = some logged call multiplies {x, y} in either order and returned res. */
+static inline int mul_log_get(int i, wide *a, wide *b, wide *r) {
+    if (i < 0 || i >= g_mul_n || i > 3) return 0;
+    if (i == 0) { *a = sval(&g_mul_a0); *b = sval(&g_mul_b0); *r = sval(&g_mul_r0); }
+    if (i == 1) { *a = sval(&g_mul_a1); *b = sval(&g_mul_b1); *r = sval(&g_mul_r1); }
+    if (i == 2) { *a = sval(&g_mul_a2); *b = sval(&g_mul_b2); *r = sval(&g_mul_r2); }
+    if (i == 3) { *a = sval(&g_mul_a3); *b = sval(&g_mul_b3); *r = sval(&g_mul_r3); }
+    return 1;
+}
+static inline int mul_logged(wide x, wide y, wide res) {
+    int i, hit = 0; wide a, b, r;
+    for (i = 0; i < 4; i++) if (mul_log_get(i, &a, &b, &r) && ((a == x && b == y) || (a == y && b == x)) && r == res) hit = 1;
+    return hit;
+}
+#endif
 /* value of a field element of magnitude <= 8 reduced mod p (what fe_normalize computes) */
 static inline wide fmodp(const secp256k1_fe *a) { wide v = fval(a), p = P_(); int i; for (i = 0; i < 20; i++) if (v >= p) v -= p; return v; }
 /* same for magnitude <= 1 (outputs of ge_set_gej / ge_set_xo_var contracts: ge_ok1): value < 2^257 < 3p */
